@@ -167,7 +167,11 @@ func mathMod(L *LState) int {
 }
 
 func mathModf(L *LState) int {
-	v1, v2 := math.Modf(float64(L.CheckNumber(1)))
+	x := float64(L.CheckNumber(1))
+	v1, v2 := math.Modf(x)
+	if math.IsInf(x, 0) { // C modf(+-inf) = +-inf, +-0; Go returns a NaN fraction
+		v2 = math.Copysign(0, x)
+	}
 	L.Push(LNumber(v1))
 	L.Push(LNumber(v2))
 	return 2
